@@ -252,6 +252,9 @@ def run_process(ctx):
     is_source = reg_kind == 2
     own = own_store_out_of_date(has_store, is_source, mt, A, fresh)
     spec_stale = z3.Or(anc_stale, own)
+    if env["stale_lookup"].get(node) is not stale_slot or env["modified_time_lookup"].get(node) is not m_slot:
+        # the per-node results are no longer written INTO the slots this unit handed over (plain values in the dicts, records ...): another representation
+        ctx.unsupported("process() does not keep its per-node results in the Slot cells of stale_lookup / modified_time_lookup")
     got = stale_slot.value
     ctx.check("post:stale_lookup[n]==Stale(n)", (spec_stale if got is True else z3.Not(spec_stale)) if isinstance(got, bool) else False,
               props=["C05", "C03", "C08"], info=f"stale slot = {got!r}")
@@ -450,6 +453,9 @@ def get_stale_nodes_unit(ctx):
     ctx.check("works-on-a-copy:prune_source_literals(plan,inplace=False,predicate)", bool(ok), props=["C13", "C05"])
     if ok:
         ctx.check("only-UNREGISTERED-source-literals-are-pruned", bool(e[3](c1) is True and e[3](lit) is False), props=["C05", "C09"])
+    if not any(x[0] == "rfg" for x in log):
+        # the function ended before handing the check to the engine (it built its lookups in a way the stand-ins of this unit do not support)
+        ctx.unsupported(f"_get_stale_nodes did not reach run_function_on_graph in this unit's environment: {kind} {val!r}"[:300])
     nz = [x for x in log if x[0] == "normalise"]
     ctx.check("C18:fresh_time-normalised-once-before-the-check-runs", bool(len(nz) == 1 and nz[0][1] is FRESH_RAW and log.index(nz[0]) < [x[0] for x in log].index("rfg")), props=["C18"])
     r = next((x for x in log if x[0] == "rfg"), None)
@@ -638,6 +644,8 @@ def run_process_bounded(ctx):
                 if o is not None:
                     mx = z3.If(o.t > mx, o.t, mx)
             spec = mx > mt.t
+    if sl.get(node) is not stale_slot or ml.get(node) is not m_slot:
+        ctx.unsupported("process() does not keep its per-node results in the Slot cells of stale_lookup / modified_time_lookup")
     got = stale_slot.value
     ctx.check("bounded/post:stale_lookup[n]==Stale(n)", (spec if got is True else z3.Not(spec)) if isinstance(got, bool) else False, info=f"stale slot = {got!r}")
     if got is False:
